@@ -2,6 +2,8 @@ package e4
 
 import (
 	"os"
+	"runtime/debug"
+	"runtime/pprof"
 	"testing"
 
 	"verifsim/core"
@@ -9,8 +11,18 @@ import (
 
 func TestWorker(t *testing.T) {
 	env := core.ReadEnv()
+	// every write-mode open allocates the WAL encoder's 1 MiB buffer; the live
+	// heap is tiny, so let the collector run less often
+	debug.SetGCPercent(1000)
 	cleanupStale()
+	if p := os.Getenv("VERIF_E4_PROF"); p != "" {
+		if f, err := os.Create(p); err == nil {
+			pprof.StartCPUProfile(f)
+			defer f.Close()
+		}
+	}
 	code := core.WorkerMain(env, engine{})
+	pprof.StopCPUProfile()
 	os.RemoveAll(scratchBase)
 	os.Exit(code)
 }
